@@ -39,6 +39,7 @@ class _FakeDT(datetime.datetime):
 
 def _patch_now():
     import joblib._store_backends as SB
+    os.path.getatime = _getatime
     shim = types.SimpleNamespace(datetime=_FakeDT, timedelta=datetime.timedelta, date=datetime.date)
     SB.datetime = shim
     _FakeDT._now = NOW
@@ -57,20 +58,42 @@ def hexname(i):
     return ("%02x" % (i * 37 % 251)) * 16
 
 
+NOOUT = [None]      # which entries have no output.pkl (only metadata.json): None | "first" | "all"
+
+
+def _has_output(i):
+    return NOOUT[0] is None or (NOOUT[0] == "first" and i != 0)
+
+
 def build_store(root, store):
-    """Create <root>/joblib/m/f/<hex>/output.pkl with exact sizes and access times."""
+    """Create <root>/joblib/m/f/<hex>/output.pkl with exact sizes and access times.  An entry without output file (a
+    result that could not be pickled, a killed writer) is a directory holding only metadata.json: joblib then takes the
+    directory's access time and the size of what is there."""
     base = os.path.join(root, "joblib", "m", "f")
     os.makedirs(base, exist_ok=True)
     paths = []
     for i, (s, t) in enumerate(store):
         d = os.path.join(base, hexname(i))
         os.makedirs(d, exist_ok=True)
-        p = os.path.join(d, "output.pkl")
+        p = os.path.join(d, "output.pkl" if _has_output(i) else "metadata.json")
         with open(p, "wb") as f:
             f.write(b"x" * (s * UNIT))
         os.utime(p, (TIMES[t], TIMES[t]))
+        if not _has_output(i):
+            # the access time of a DIRECTORY is not ours to set (reading the directory updates it under relatime):
+            # it is an environment answer, given through os.path.getatime
+            _DIR_ATIME[d] = TIMES[t]
         paths.append(d)
     return paths
+
+
+_DIR_ATIME = {}
+_real_getatime = os.path.getatime
+
+
+def _getatime(path):
+    v = _DIR_ATIME.get(os.fspath(path))
+    return v if v is not None else _real_getatime(path)
 
 
 def limits_for(store):
@@ -140,6 +163,10 @@ def _work(item):
     global TIMES
     tier, chunk = item[:2]
     scale = item[2] if len(item) > 2 else "hours"
+    NOOUT[0] = None
+    if "+" in scale:
+        scale, no = scale.split("+")
+        NOOUT[0] = no
     TIMES = SCALES[scale]
     import joblib
     _patch_now()
@@ -160,7 +187,7 @@ def _work(item):
                 exc = None
             except Exception as e:  # noqa
                 exc = "%s: %s" % (type(e).__name__, e)
-            present = [os.path.exists(os.path.join(p, "output.pkl")) for p in paths]
+            present = [os.path.exists(os.path.join(p, "output.pkl" if _has_output(i) else "metadata.json")) for i, p in enumerate(paths)]
             evicted = frozenset(i for i, p in enumerate(present) if not p)
             ok = acceptable_evictions(store, bl, il, al)
             if evicted:
@@ -177,12 +204,12 @@ def _work(item):
                     else:
                         kind = "not-lru-order"
                 which = "+".join(x for x, v in (("bytes", bl), ("items", il), ("age", al)) if v is not None) or "none"
-                sig = "%s|%s" % (kind, which) + ("" if scale == "hours" else "|access-times-" + scale)
+                sig = "%s|%s" % (kind, which) + ("" if scale == "hours" else "|access-times-" + scale) + ("" if NOOUT[0] is None else "|entries-without-output")
                 if sig not in viols:
                     viols[sig] = [sig, "store (size units, time index) %r with bytes_limit=%r items_limit=%r age_limit=%r: evicted entries %r%s; acceptable minimal LRU prefixes: %r" % (
                         list(store), bl, il, al, sorted(evicted), (" and raised " + exc) if exc else "", [sorted(s) for s in ok]),
                         {"store": [list(e) for e in store], "bytes_limit": bl, "items_limit": il,
-                         "age_limit_s": None if al is None else al.total_seconds(), "scale": scale}]
+                         "age_limit_s": None if al is None else al.total_seconds(), "scale": scale + ("" if NOOUT[0] is None else "+" + NOOUT[0])}]
             # restore evicted entries
             if evicted:
                 build_store(loc, store)
@@ -251,7 +278,7 @@ def run(ctx):
     chunks = [sel[i::64] for i in range(64)]
     work = [(ctx.tier, c, "hours") for c in chunks if c]
     other = [s for s in all_stores if len(s) <= (3 if quick else 4)]
-    for scale in ("days", "future"):
+    for scale in ("days", "future", "hours+first", "hours+all"):
         work += [(ctx.tier, c, scale) for c in (other[i::32] for i in range(32)) if c]
     n = nontrivial = 0
     for res in core.pmap(_work, work):
@@ -260,7 +287,7 @@ def run(ctx):
         for v in res["viol"]:
             ctx.violation(*v)
     g = genuine_results(ctx)
-    ctx.rule = ("all stores of <= 4 (quick) / <= 5 (thorough) entries as multisets of (size in {0,1,2,3}x100 bytes, access time in {t1,t2,t3} on three scales: hours old, days old (age != age mod 24 h), last access in the future) built as real "
+    ctx.rule = ("all stores of <= 4 (quick) / <= 5 (thorough) entries as multisets of (size in {0,1,2,3}x100 bytes, access time in {t1,t2,t3} on three scales: hours old, days old (age != age mod 24 h), last access in the future; also with the first / every entry lacking its output file) built as real "
                 "entry directories with exact output.pkl size and utime, x bytes_limit in {None, 0, total, '1K', every LRU prefix "
                 "remainder +-1} x items_limit in {None, 0..n, n+2} x age_limit in {None, 0, each access-time boundary +-1 s, 30 days} "
                 "through Memory.reduce_size; quick = all stores with <= 3 entries + a seed-rotated sixth of the 4-entry stores. "
